@@ -58,7 +58,11 @@ func genFile(r *rng.R, used map[string]bool, class string) (string, []fn) {
 			}
 			used[name] = true
 			fns = append(fns, fn{name, failing, true, stem})
-			switch r.Intn(3) {
+			switch r.Intn(5) {
+			case 3: // a named result
+				fmt.Fprintf(&sb, "func %s() (ok bool) {\n\tok = true\n\treturn ok\n}\n\n", name)
+			case 4: // text that looks like the start of a block comment, in a string and in a line comment, before the test
+				fmt.Fprintf(&sb, "const glob%d = \"logs/*\"\n\n// see tmp/*.go for the inputs\nfunc %s() bool {\n\treturn len(glob%d) > 0\n}\n\n", len(used), name, len(used))
 			case 0:
 				fmt.Fprintf(&sb, "func %s() bool {\n\treturn true\n}\n\n", name)
 			case 1:
